@@ -99,6 +99,12 @@ func TestC02bUpdateHistory(t *testing.T) { updateHistory(t) }
 // side changed last - the same histories through the real update loop.
 func TestC05UpdateLoop(t *testing.T) { updateHistory(t) }
 
+// C03 / C12: requests are routed (and admitted) by the routes of the current configuration; the
+// same histories once more - after every update the active table is the last good one and the
+// lookups agree with it.
+func TestC03UpdateLoop(t *testing.T) { updateHistory(t) }
+func TestC12UpdateLoop(t *testing.T) { updateHistory(t) }
+
 func updateHistory(t *testing.T) {
 	be := startLoop()
 	hx.Check(t, hx.Scale(300, 5000), func(t *rapid.T) {
